@@ -840,11 +840,26 @@ pub fn build(rng: &mut Rng, p: &GenParams) -> Vec<u8> {
             ..Default::default()
         });
     }
+    const REAL_NAMES: [&str; 20] = [
+        ".text", ".data", ".rodata", ".comment", ".debug_info", ".debug_str", ".debug_line",
+        ".eh_frame", ".eh_frame_hdr", ".init_array", ".fini_array", ".got", ".got.plt", ".plt",
+        ".interp", ".tdata", ".data.rel.ro", ".gcc_except_table", ".ARM.attributes", ".stab",
+    ];
     for i in 0..p.progbits {
-        let mut d = vec![0u8; rng.urange(0, 96)];
+        // sizes: mostly small and arbitrary, sometimes an exact power of two
+        let n = if rng.chance(1, 5) {
+            *rng.pick(&[1usize, 2, 4, 8, 16, 32, 64, 128, 256, 512, 1024])
+        } else {
+            rng.urange(0, 96)
+        };
+        let mut d = vec![0u8; n];
         rng.fill(&mut d);
         secs.push(Sec {
-            name: format!(".text.{}", i),
+            name: if rng.chance(1, 2) {
+                (*rng.pick(&REAL_NAMES)).to_string()
+            } else {
+                format!(".text.{}", i)
+            },
             typ: hdr::SHT_PROGBITS,
             flags: SHF_ALLOC | 4,
             data: d,
@@ -1273,12 +1288,16 @@ pub fn build(rng: &mut Rng, p: &GenParams) -> Vec<u8> {
         class64: p.c64,
         be: p.be,
         e_type: *rng.pick(&[1u16, 2, 3, 3, 2, 4, 0, 0xfe00, 0xffff]),
-        e_machine: *rng.pick(&[3u16, 62, 183, 40, 20, 21, 243, 4]),
+        e_machine: if rng.chance(1, 6) {
+            rng.next_u64() as u16
+        } else {
+            *rng.pick(&[3u16, 62, 183, 40, 20, 21, 243, 4, 8, 2, 50, 0])
+        },
         e_version: 1,
         e_entry: 0x40_1000,
         e_phoff,
         e_shoff,
-        e_flags: 0,
+        e_flags: if rng.chance(1, 3) { rng.next_u64() as u32 } else { 0 },
         e_ehsize: eh as u16,
         e_phentsize: if nph > 0 { phent as u16 } else { 0 },
         e_phnum,
@@ -1287,7 +1306,14 @@ pub fn build(rng: &mut Rng, p: &GenParams) -> Vec<u8> {
         e_shstrndx,
     };
     hdr::write_ehdr(&mut out, &e);
-    out[7] = *rng.pick(&[0u8, 3, 9]);
+    out[7] = if rng.chance(1, 6) {
+        rng.next_u64() as u8
+    } else {
+        *rng.pick(&[0u8, 3, 9, 6, 12, 97, 255])
+    };
+    if rng.chance(1, 8) {
+        out[8] = rng.next_u64() as u8; // EI_ABIVERSION
+    }
     out
 }
 
